@@ -150,7 +150,8 @@ struct HttpSinkArray : public HttpSink
 	}
 	void init(int n)
 	{
-		a->reserve(n);
+		// the announced length comes from the peer: reserve a bounded amount up front, the array grows as data arrives
+		a->reserve(n < (1 << 24) ? n : (1 << 24));
 	}
 };
 
